@@ -85,11 +85,23 @@ def _gone_private_helper(r):
 
 
 def missing_atoms(atoms, required):
-    return [r for r in required if r not in atoms and not _gone_private_helper(r)]
+    """required entries that are absent; an entry may be a tuple of alternatives (any one of them suffices)"""
+    out = []
+    for r in required:
+        if isinstance(r, (tuple, list)):
+            if not any(x in atoms or _gone_private_helper(x) for x in r):
+                out.append(tuple(r))
+        elif r not in atoms and not _gone_private_helper(r):
+            out.append(r)
+    return out
 
 
 def fmt_missing(miss):
-    return ", ".join(m.replace("call:", "").replace("field:", "field ") for m in miss)
+    def one(m):
+        if isinstance(m, tuple):
+            return "(" + " or ".join(one(x) for x in m) + ")"
+        return m.replace("call:", "").replace("field:", "field ").replace("discr:", "match on ")
+    return ", ".join(one(m) for m in miss)
 
 
 def atoms_of(fd, kind="ret"):
@@ -132,7 +144,11 @@ def callers_of(prog, callee, include_tests=False):
 
 
 def fn_of_closure(key):
-    """strip ::{closure#n} suffixes"""
+    """the function a closure belongs to (strip ::{closure#n} suffixes; in the inlined view a closure of a helper that
+    was made transparent belongs to the function the helper was inlined into)"""
+    own = getattr(_CUR.get("prog"), "closure_owner", None)
+    if own and key in own:
+        return own[key]
     return re.sub(r"(::\{closure#\d+\})+$", "", key)
 
 
